@@ -387,7 +387,7 @@ def op_concat(rng, inp):
     all_empty = rng.random() < 0.3      # [] + rows: a concatenation is a NEW column also when only one part has rows
     for _ in range(rng.randint(1, 2)):
         rows = gen.gen_rows(rng, schema, 0 if all_empty else rng.randint(0, 4))
-        others.append(mk_input(rng, content=(schema, rows)))
+        others.append(mk_input(rng, content=(schema, rows), recipes=[l for l in gen.LAYOUTS if l != "missing_hidden"]))
     rng.shuffle(others)
     res = attempt(lambda: NEA._concat_same_type([o["arr"] for o in others]))
     ps = cq_list(o["P"] for o in others)
